@@ -121,6 +121,15 @@ Definition meta_ok (k : cls_spec) (m : meta) : bool :=
 Definition cls_no_user (x : cls) : bool :=
   match x with Plain => true | Attrs c => match c_user_setattr c with None => true | Some _ => false end end.
 
+(** The property's own reading of "hooks on a frozen class": frozen by the class's argument
+    or by ANY frozen base, hooks asked for at class level or on any field. *)
+Definition hooks_requested (hd : acls) : bool :=
+  has_cls_on_setattr (c_on_setattr hd) ||
+  existsb (fun a => negb (os_is_none (a_on_setattr a))) (c_attrs hd).
+
+Definition must_reject (hd : acls) (rest : list cstate) : bool :=
+  (c_frozen_arg hd || base_frozen rest) && hooks_requested hd.
+
 Definition check_case (c : case) : bool :=
   match cs_chain c with
   | Attrs hd :: basesl =>
@@ -132,8 +141,9 @@ Definition check_case (c : case) : bool :=
               cs_accepted c &&
               let model_ok := runs_ok k (lookup_setattr (d :: rest)) c in
               let prop_ok :=
-                negb (forallb cls_no_user (cs_chain c)) ||
-                (runs_ok k (expected_impl k rest) c && forallb (meta_ok k) (cs_meta c)) in
+                negb (must_reject hd rest) &&
+                (negb (forallb cls_no_user (cs_chain c)) ||
+                 (runs_ok k (expected_impl k rest) c && forallb (meta_ok k) (cs_meta c))) in
               if cs_model_layer c then model_ok && (prop_ok || cs_flag c) else prop_ok
           | _, _ => negb (cs_accepted c)
           end
